@@ -1,0 +1,44 @@
+//go:build verif
+
+package chain
+
+import (
+	"time"
+
+	"github.com/btcsuite/btcd/chaincfg/chainhash"
+)
+
+// The methods in this file exist only under the "verif" build tag (check C18,
+// add-only).  They expose the unexported notification callbacks of the btcd
+// and neutrino backends - the functions rpcclient / the neutrino rescan call
+// when the chain changes - so that a harness can hand notifications to the
+// REAL queue loops (RPCClient.handler, NeutrinoClient.notificationHandler)
+// through the same entry the backends use (`enqueueNotification <- ...`
+// guarded by the quit channel) and knows when each hand-over has completed.
+// Nothing here touches the queue state itself.
+
+// VerifC18OnBlockConnected is rpcclient's OnBlockConnected callback.
+func (c *RPCClient) VerifC18OnBlockConnected(hash *chainhash.Hash, height int32, t time.Time) {
+	c.onBlockConnected(hash, height, t)
+}
+
+// VerifC18OnBlockDisconnected is rpcclient's OnBlockDisconnected callback.
+func (c *RPCClient) VerifC18OnBlockDisconnected(hash *chainhash.Hash, height int32, t time.Time) {
+	c.onBlockDisconnected(hash, height, t)
+}
+
+// VerifC18OnRescanProgress is rpcclient's OnRescanProgress callback.
+func (c *RPCClient) VerifC18OnRescanProgress(hash *chainhash.Hash, height int32, t time.Time) {
+	c.onRescanProgress(hash, height, t)
+}
+
+// VerifC18OnBlockConnected is the neutrino rescan's OnBlockConnected callback.
+func (s *NeutrinoClient) VerifC18OnBlockConnected(hash *chainhash.Hash, height int32, t time.Time) {
+	s.onBlockConnected(hash, height, t)
+}
+
+// VerifC18OnBlockDisconnected is the neutrino rescan's OnBlockDisconnected
+// callback.
+func (s *NeutrinoClient) VerifC18OnBlockDisconnected(hash *chainhash.Hash, height int32, t time.Time) {
+	s.onBlockDisconnected(hash, height, t)
+}
